@@ -21,7 +21,7 @@ PROPERTY = 'C07'
 ASSUMPTIONS = [
     'the ordering BETWEEN types is whatever cmp says; the oracle never hard-codes it (only: result in {-1,0,1}, no exception, antisymmetry, '
     'transitivity of <= and of ==, 0 for numerically equal int/float, NaN above every finite number)',
-    'bools and +-inf take part in the cmp laws only (the statement excludes them from sort inputs)',
+    'bools take part in the cmp laws only (the statement excludes them from sort inputs); +-inf are sorted too since cmp orders them like native floats',
     'sort oracle: output is a permutation by identity whose adjacent elements satisfy cmp(a,b) <= 0, cmp having been checked by cmp_laws in the same run',
     'dictable.sort with explicit value orders: listed values are not NaN (dict lookup of a NaN cell is identity based)',
 ]
@@ -133,7 +133,7 @@ def check_cmp(case):
 
 # ------------------------------------------------------------------------------------------------ sort
 
-S = ['None', '1', '2', '1.5', 'nan', "'a'", "'b'", 'dt']           # names; objects are built per case
+S = ['None', '1', '2', '1.5', 'nan', "'a'", "'b'", 'dt', '+inf', '-inf']           # names; objects are built per case
 
 
 def _mk(name, shared_nan):
@@ -155,6 +155,10 @@ def _mk(name, shared_nan):
         return 'b'
     if name == 'dt':
         return datetime.datetime(2000, 1, 1)
+    if name == '+inf':
+        return float('inf')
+    if name == '-inf':
+        return float('-inf')
     raise ValueError(name)
 
 
@@ -223,7 +227,7 @@ def check_list(case):
 
 # ------------------------------------------------------------------------------------------------ dictable.sort
 
-KA = ['None', '1', '2', '1.5', 'nan', "'a'", 'dt', '1.0']
+KA = ['None', '1', '2', '1.5', 'nan', "'a'", 'dt', '1.0', '-inf']
 KB3 = ['1', 'None', "'a'"]
 KC3 = ['2', 'nan', '1']
 
